@@ -11,8 +11,8 @@ open CC.Spec.Seq (SOp Out)
 theorem libc_invariant (s : Stack) (op : SOp) (m : Mem) (hinv : s.Inv) : (s.step op m).2.2.libc = m.libc :=
   (Stack.step_led s op m hinv).1
 
-theorem history_libc_invariant (ops : List SOp) (s : Stack) (m : Mem) (hinv : s.Inv) (hlive : 0 < m.live) :
-    (s.run ops m).2.2.libc = m.libc := (Stack.run_led ops s m hinv hlive).1
+theorem history_libc_invariant (ops : List SOp) (s : Stack) (m : Mem) (hinv : s.Inv) :
+    (s.run ops m).2.2.libc = m.libc := (Stack.run_led ops s m hinv).1
 
 /-- wrapped construction, destruction (header included — Q2) and `cc_stack_filter` (Q3) -/
 theorem lifecycle_libc_invariant (s : Stack) (cap : Nat) (grow dgrow : Nat → Nat) (exGe dexGe : Nat → Bool)
@@ -28,9 +28,9 @@ theorem allocator_independent (s : Stack) (op : SOp) (m1 m2 : Mem) (hinv : s.Inv
   exact ⟨e1, Stack.ext_v e2, e3⟩
 
 theorem history_allocator_independent (ops : List SOp) (s : Stack) (m1 m2 : Mem) (hinv : s.Inv)
-    (hl1 : 0 < m1.live) (hl2 : 0 < m2.live) (h : m1.sched = m2.sched) :
+    (h : m1.sched = m2.sched) :
     (s.run ops m1).1 = (s.run ops m2).1 ∧ (s.run ops m1).2.1 = (s.run ops m2).2.1 :=
-  ⟨(Stack.run_indep ops s m1 m2 hinv hl1 hl2 h).1, (Stack.run_indep ops s m1 m2 hinv hl1 hl2 h).2.1⟩
+  ⟨(Stack.run_indep ops s m1 m2 hinv h).1, (Stack.run_indep ops s m1 m2 hinv h).2.1⟩
 
 theorem new_allocator_independent (cap : Nat) (grow : Nat → Nat) (exGe : Nat → Bool) (m1 m2 : Mem)
     (h : m1.sched = m2.sched) :
